@@ -46,6 +46,9 @@ pub enum Op {
     /// process_into_buffer with a mask (bit c = channel c active); bool: inactive channels are
     /// passed as empty slices (true) or as full sentinel-filled slices (false)
     PM(u32, bool),
+    /// process_partial_into_buffer(Some(first n frames)) with a mask; bool: inactive channels are
+    /// passed as empty slices (true) or with n frames like the active ones (false)
+    PPM(u32, usize, bool),
     /// process() (allocating)
     W,
     /// process_partial(Some(first n frames)) / None
@@ -90,6 +93,7 @@ impl Op {
             Op::PP(None) => "PP(-)".into(),
             Op::PP(Some(n)) => format!("PP({})", n),
             Op::PM(m, e) => format!("PM({:b},{})", m, if *e { "e" } else { "s" }),
+            Op::PPM(m, n, e) => format!("PPM({:b},{},{})", m, n, if *e { "e" } else { "s" }),
             Op::W => "W".into(),
             Op::WP(None) => "WP(-)".into(),
             Op::WP(Some(n)) => format!("WP({})", n),
@@ -143,6 +147,15 @@ impl Op {
             ("C", 1) => Op::C(args[0].parse().map_err(|_| err())?),
             ("PP", 1) => Op::PP(optn(args[0])?),
             ("WP", 1) => Op::WP(optn(args[0])?),
+            ("PPM", 3) => Op::PPM(
+                u32::from_str_radix(args[0], 2).map_err(|_| err())?,
+                args[1].parse().map_err(|_| err())?,
+                match args[2] {
+                    "e" => true,
+                    "s" => false,
+                    _ => return Err(err()),
+                },
+            ),
             ("PM", 2) => Op::PM(
                 u32::from_str_radix(args[0], 2).map_err(|_| err())?,
                 match args[1] {
@@ -187,7 +200,7 @@ impl Op {
     pub fn is_processing(&self) -> bool {
         matches!(
             self,
-            Op::P | Op::Px | Op::PP(_) | Op::PM(_, _) | Op::W | Op::WP(_)
+            Op::P | Op::Px | Op::PP(_) | Op::PM(_, _) | Op::PPM(_, _, _) | Op::W | Op::WP(_)
         )
     }
 }
